@@ -792,6 +792,9 @@ class Epoch(object):
             k = 1 if Epoch.is_leap(yyyy) else 2
             doy = (iint((275.0 * mm) / 9.0)
                    - k * iint((mm + 9.0) / 12.0) + day - 30.0)
+            if yyyy == 1582 and (mm > 10 or (mm == 10 and day >= 15)):
+                # October 5th to 14th, 1582, do not exist (Gregorian reform)
+                doy -= 10.0
         return float(doy + frac)
 
     def doy(self):
@@ -879,6 +882,9 @@ class Epoch(object):
                 # +1. This little hack solves that problem (the 'if' result is
                 # inverted here).
                 k = 1 if Epoch.is_leap(year) else 2
+                if year == 1582 and doy > 277:
+                    # October 4th, 1582 (DOY 277) was followed by October 15th
+                    doy += 10
                 if doy < 32:
                     m = 1
                 else:
